@@ -5,7 +5,8 @@ independent sub-agent to /tmp/prompts/<mutant id>.txt. The agent sees the proper
 (nothing from /verif)."""
 import json, os, subprocess, sys
 pid, mid = sys.argv[1], sys.argv[2]
-focus = sys.argv[3] if len(sys.argv) > 3 else None
+focus = sys.argv[3] if len(sys.argv) > 3 and sys.argv[3] != '-' else None
+hard = len(sys.argv) > 4 and sys.argv[4] == 'hard'
 props = {json.loads(l)['id']: json.loads(l) for l in open('/verif/properties.jsonl')}
 existing = [d.split('-', 1)[1].replace('-', ' ') for d in os.listdir('/verif/seeded') if d.split('-')[0] == pid]
 wt = f'/tmp/mut-{mid}'
@@ -13,6 +14,9 @@ subprocess.run(['git', '-C', '/repo', 'worktree', 'add', '--detach', wt, 'HEAD']
 p = props[pid]
 text = json.dumps({k: p[k] for k in ('id', 'title', 'statement', 'quantifier', 'why_tests_cant', 'anchors') if k in p}, indent=1)
 focus_txt = f"\nFOCUS: make the change in {focus} (read it closely first); changes elsewhere do not count for this task.\n" if focus else ""
+hard_txt = """
+HARD MODE: make the breakage as hard to reach as you can while it stays a real, demonstrable violation of the property through the public API. Good candidates need a deep state or a rare event: three or more populated levels, versions of one user key straddling a file boundary inside a level, a rare compaction kind (seek-triggered, trivial move, grandparent-overlap output cut, accepted input expansion, manual compaction of a sub-range), a size threshold (e.g. group commits above 128 KiB / 1 MiB, values larger than a block or a memtable), a narrow interleaving window between two specific steps, or a reopen at a specific moment. A change that a random workload of a few dozen operations on a handful of keys would trip over is NOT what is wanted.
+""" if hard else ""
 prompt = f"""You are working in a scratch git worktree of nerdondon/raindb (a LevelDB-style LSM key-value store in Rust) at {wt}. Work ONLY inside {wt}. Do not read or touch /verif, and do not touch /repo except through this worktree. Never use `git stash` (the stash is shared between worktrees) and never commit. The sandbox is offline: always pass --offline to cargo and set CARGO_TARGET_DIR={wt}/target so build output stays in your worktree.
 
 Here is one semantic property that users of raindb rely on:
@@ -24,7 +28,7 @@ Your task: make ONE small, realistic change to the code under src/ - the kind of
  (2) the existing unit tests still pass: `CARGO_TARGET_DIR={wt}/target cargo test --offline --lib -- --skip os_file_system_tests` (those skipped ones are flaky on their own),
  (3) the breakage needs something specific to manifest (a particular data layout, interleaving, size, crash point or sequence of calls) - not a change that fails on every operation.
 Code inside `#[cfg(raindb_verif)]` blocks is verification instrumentation: leave it alone and do not rely on it.
-{focus_txt}
+{focus_txt}{hard_txt}
 It must be a DIFFERENT mechanism from these earlier changes for the same property: {existing}. Also do NOT touch these already-used spots: the level-0 widening in VersionSet::pick_compaction, the position of set_prev_sequence_number in DB::apply_changes, is_base_level_for_key, the tombstone/hidden-entry drop rule in the compaction loop.
 
 Then DEMONSTRATE it: write an integration test `tests/demo_{mid.lower()}.rs` that uses the public API (e.g. `DbOptions` with the in-memory filesystem `raindb::fs::InMemoryFileSystem`, small `max_memtable_size`/`max_file_size`) and FAILS with your change and PASSES without it. If the breakage needs a thread interleaving or an I/O fault that a plain test cannot force, wrap the filesystem (the `raindb::fs::FileSystem` trait is public) or, as a last resort, add temporary sleeps/hooks to src/ for the demonstration only - keep those in a separate diff `OUT/demo_hooks.diff` that is NOT part of the change itself. Verify both directions yourself (apply/revert your change with `git diff -- src > x.diff; git apply -R x.diff; ...; git apply x.diff`).
